@@ -50,6 +50,12 @@ extern "C" ssize_t writev(int fd, const struct iovec* iov, int cnt) {
 }
 extern "C" int rename(const char* a, const char* b) { size_t sn; gate('r', a, 0, sn); return (int)syscall(SYS_rename, a, b); }
 
+// passive observers of the codec calls (the real functions run unchanged): did finishing a stream need more than one pass?
+#include <dlfcn.h>
+static uint64_t g_gz_finish_more = 0, g_xz_finish_more = 0;
+extern "C" int deflate(z_streamp s, int flush) { static auto real = (int (*)(z_streamp, int))dlsym(RTLD_NEXT, "deflate"); int r = real(s, flush); if (flush == Z_FINISH && r == Z_OK) g_gz_finish_more++; return r; }
+extern "C" lzma_ret lzma_code(lzma_stream* s, lzma_action act) { static auto real = (lzma_ret (*)(lzma_stream*, lzma_action))dlsym(RTLD_NEXT, "lzma_code"); lzma_ret r = real(s, act); if (act == LZMA_FINISH && r == LZMA_OK) g_xz_finish_more++; return r; }
+
 // ------------------------------------------------------------------ scenarios
 struct Step { char op; int n; std::string name; bool exp; };      // 'Q' buffer n records, 'R' rotate(name, exp), 'W' write_block
 struct Scenario { std::string name; int comp; bool fd; std::vector<Step> steps; std::string preexisting; };
@@ -64,6 +70,9 @@ static std::vector<Scenario> scenarios(bool fd_too) {
         if (!fd) v.push_back({"onto-existing-" + c, comp, false, {{'Q', 2, "", false}, {'R', 0, "outE", true}, {'Q', 2, "", false}, {'R', 0, "outF", false}}, "outE"});
         if (!fd) v.push_back({"back-to-first-" + c, comp, false, {{'Q', 2, "", false}, {'R', 0, "outB", false}, {'Q', 2, "", false}, {'R', 0, "outA", true}, {'Q', 3, "", false}}, ""});
         if (!fd) v.push_back({"onto-current-" + c, comp, false, {{'Q', 2, "", false}, {'R', 0, "outA", true}, {'Q', 3, "", false}, {'R', 0, "outA", false}, {'Q', 2, "", false}}, ""});   // rotation onto the very name being written
+        // high-entropy records: the compressor still holds several KB when the output is closed, so finishing the stream takes several passes
+        v.push_back({"entropy-single-" + c, comp, (bool)fd, {{'H', 5, "", false}}, ""});
+        if (!fd) v.push_back({"entropy-rotations-" + c, comp, false, {{'H', 4, "", false}, {'R', 0, "outB", true}, {'H', 3, "", false}, {'R', 0, "outA", true}, {'H', 2, "", false}}, ""});
         v.push_back({"buffered-unwritten-" + c, comp, (bool)fd, {{'Q', 1, "", false}}, ""});
         v.push_back({"nothing-" + c, comp, (bool)fd, {}, ""});
     }
@@ -79,6 +88,8 @@ static bool decompress(int comp, const std::string& z, std::string& out) {
 }
 
 static GenericQueryResponse big_record(int i) { static Pools P = make_pools(1000000); GenericQueryResponse q = P.qr[0]; q.query_name = std::string(3000 + i, (char)('a' + i % 26)); q.client_port = 1000 + i; q.transaction_id = i; return q; }
+
+static GenericQueryResponse entropy_record(int i) { GenericQueryResponse q = big_record(i); std::string n(3000 + i, 0); uint64_t x = 88172645463325252ULL + i; for (auto& ch : n) { x ^= x << 13; x ^= x >> 7; x ^= x << 17; ch = (char)x; } q.query_name = n; return q; }
 
 struct RunLog {
     std::vector<std::string> events;              // per API call: "ok" / "exc:<what>"
@@ -102,9 +113,9 @@ static void run_scenario(const Scenario& sc, const std::string& dir, bool protoc
     int rec = 0; std::vector<int> buffered; bool failed = false; size_t cur_bytes = 0;
     for (size_t si = 0; si < sc.steps.size() && !failed; si++) {
         const Step& st = sc.steps[si];
-        if (st.op == 'Q') for (int i = 0; i < st.n && !failed; i++) {
+        if (st.op == 'Q' || st.op == 'H') for (int i = 0; i < st.n && !failed; i++) {
             size_t before = e->get_block_item_count();
-            try { buffered.push_back(rec); size_t r = e->buffer_qr(big_record(rec)); rec++; cur_bytes += r; if (r > 0) buffered.clear(); log.events.push_back("ok"); }
+            try { buffered.push_back(rec); size_t r = e->buffer_qr(st.op == 'H' ? entropy_record(rec) : big_record(rec)); rec++; cur_bytes += r; if (r > 0) buffered.clear(); log.events.push_back("ok"); }
             catch (std::exception& x) { rec++; log.events.push_back(std::string("exc:") + x.what()); failed = true; log.block_write_failed = true; log.failed_step = (int)si; log.buffered_before_fail = before + 1; log.buffered_after_fail = e->get_block_item_count(); log.recs_in_failed_block = buffered; }
         }
         else if (st.op == 'R') {
@@ -162,7 +173,9 @@ int main(int argc, char** argv) {
             { CdnsExporter e(fp, dir + "/" + sc.preexisting, sc.comp == 1 ? CborOutputCompression::GZIP : sc.comp == 2 ? CborOutputCompression::XZ : CborOutputCompression::NO_COMPRESSION); e.buffer_qr(big_record(99)); e.write_block(); } } };
         // ---- trace run
         prepare(); std::map<std::string, std::string> initial = list_dir(dir);
+        uint64_t fm0 = g_gz_finish_more, fx0 = g_xz_finish_more;
         g_mode = 1; g_count = 0; g_trace.clear(); RunLog ref_log; run_scenario(sc, dir, !crash_mode, ref_log); g_mode = 0;
+        R.count("gz_finish_multipass", g_gz_finish_more - fm0); R.count("xz_finish_multipass", g_xz_finish_more - fx0);
         std::vector<Call> trace = g_trace; long K = (long)trace.size();
         std::map<std::string, std::string> final_files = list_dir(dir);
         R.count("scenario_calls", K);
